@@ -26,11 +26,14 @@ const NINF: u32 = u32::MAX - 2;
 
 thread_local! {
     static ARENA: RefCell<Vec<BigRational>> = RefCell::new(Vec::new());
+    /// hash-consing: equal values share one arena slot, so memory grows with the number of DISTINCT values of a run
+    static INTERN: RefCell<std::collections::HashMap<BigRational, u32>> = RefCell::new(std::collections::HashMap::new());
     /// (F, P): working fractional bits and output grid bits of the surrogates
     static PREC: Cell<(u32, u32)> = Cell::new((48, 32));
 }
 pub fn arena_reset() {
     ARENA.with(|a| a.borrow_mut().clear());
+    INTERN.with(|m| m.borrow_mut().clear());
 }
 pub fn set_prec(f: u32, p: u32) {
     PREC.with(|c| c.set((f, p)));
@@ -39,10 +42,15 @@ fn prec() -> (u32, u32) {
     PREC.with(|c| c.get())
 }
 fn mk(r: BigRational) -> Ex {
+    if let Some(id) = INTERN.with(|m| m.borrow().get(&r).copied()) {
+        return Ex(id);
+    }
     ARENA.with(|a| {
         let mut a = a.borrow_mut();
-        a.push(r);
-        Ex((a.len() - 1) as u32)
+        a.push(r.clone());
+        let id = (a.len() - 1) as u32;
+        INTERN.with(|m| m.borrow_mut().insert(r, id));
+        Ex(id)
     })
 }
 impl Ex {
